@@ -11,6 +11,7 @@ def mk(extra_assume=()):
                              "attribute order of NSDetatch'ed copies is compared up to permutation (sort.Sort + Go map order are not modelled)"] + list(extra_assume))
 PROPS = {
     "C01": mk(),
+    "C03": mk(["struct-level complete characterisation of Validate plus tree-level theorem that every decode path ends with it"]),
     "C02": mk(["certificate membership / validity-window rules are goxmldsig's (dependency); gosaml2's part - which store and which clock reach it, and that only ErrMissingSignature continues - is what is proved and corresponded"]),
     "C04": mk(),
     "C07": mk(["binding of decryption to the SP key (recipient certificate equality, certificate window) is covered by the decrypt-chain model of Decrypt.v/Keys.v; here it is the decrypt oracle"]),
